@@ -1,6 +1,6 @@
 (* C02 - Superadditive bounds are tight: the extreme superadditive completions.
    Statements only; proofs in theories/SATight.v and theories/SAWitness.v. *)
-From ICG Require Import Prelude Bits Table Bounds FoldLemmas BoundsSpec SASound SAEquiv SATight SAWitness Checks.
+From ICG Require Import Prelude Bits Table Bounds FoldLemmas BoundsSpec SASound SAEquiv SATight SAWitness SAPartition Checks.
 
 (* Completion n K v w : w is superadditive, w(empty) = 0, and w agrees with v on every known coalition.
    (1) every completion lies between the computed bounds; (2) the lower bounds themselves are a completion
@@ -29,6 +29,17 @@ Theorem C02_sa_lower_attained :
     forall s, bounded n s -> exists w, Completion n K v w /\ w s == L t' s.
 Proof. exact sa_lower_attained. Qed.
 Print Assumptions C02_sa_lower_attained.
+
+(* (5) equivalently: the lower bound is the best total of a partition of S into known coalitions.
+   Part n K S ps : ps lists non-empty, known, pairwise disjoint coalitions of the game whose union is S. *)
+Theorem C02_sa_lower_best_partition :
+  forall (c : computer) n K v t t',
+    (c = CRef \/ c = CCached) -> SA n v -> v 0%N == 0 -> MinK n K -> agrees n t K v -> compute c n t = Some t' ->
+    forall S, bounded n S ->
+      (forall ps, Part n K S ps -> qsum (map v ps) <= L t' S)
+      /\ exists ps, Part n K S ps /\ qsum (map v ps) == L t' S.
+Proof. exact sa_lower_best_partition. Qed.
+Print Assumptions C02_sa_lower_best_partition.
 
 Definition ex_v : N -> Q := game_of [0; -1; 2; 3; 1#2; 1; 4; 9].
 Definition ex_K : N -> bool := known_in [0; 1; 2; 4; 7; 3]%N.
